@@ -232,6 +232,7 @@ pub struct PreferenceManager {
     error: String,                        // empty/default string if fields are set, otherwise error message
     user_prefs: Preferences,              // prefs that come from reading prefs.yaml (system and user locations)
     api_prefs: Preferences,               // prefs set by API calls (along with some defaults not in the user settings such as "pitch")
+    api_set_user_prefs: PreferenceHashMap, // values of user prefs (e.g., "Language") set by API calls -- they override what the files say
     sys_prefs_file: Option<FileAndTime>,  // the system prefs.yaml file
     user_prefs_file: Option<FileAndTime>, // the user prefs.yaml file
     intent: PathBuf,                      // the intent rule style file
@@ -359,6 +360,10 @@ impl PreferenceManager {
                 Some(file) => file.to_string_lossy().to_string(),
             };
             bail!("Didn't find preferences in rule directory ('{}') or user directory ('{}')", &system_prefs_file.to_string_lossy(), user_prefs_file_name);
+        }
+        // values set by set_preference() override the values in the files, also when the files are read again
+        for (name, value) in &self.api_set_user_prefs {
+            prefs.prefs.insert(name.clone(), value.clone());
         }
         self.set_files_based_on_changes(&prefs)?;
         self.user_prefs = prefs;
@@ -727,6 +732,7 @@ impl PreferenceManager {
             let is_language_changed = key == "Language" &&
                     pref_value_to_string(self.user_prefs.prefs.get("Language").unwrap_or(&DEFAULT_LANG)) != value;
             self.user_prefs.prefs.insert(key.to_string(), Yaml::String(value.to_string()));
+            self.api_set_user_prefs.insert(key.to_string(), Yaml::String(value.to_string()));
             // a language change matters even when the decimal separator is given: the country can add a block separator (see set_separators)
             if is_decimal_separators_changed || is_language_changed {
                 let language = pref_value_to_string(self.user_prefs.prefs.get("Language").unwrap_or(&DEFAULT_LANG));
